@@ -596,8 +596,9 @@ def check(run):
         heavy = [x for x in sz if x[2] % 90 != 0]
         light = [x for x in sz if x[2] % 90 == 0]
         jobs += [("bounds", [x]) for x in heavy] + [("bounds", light[i::3]) for i in range(3) if light[i::3]]
+        jobs += [("interior", [x]) for x in INTERIOR_SIZES[tier]]
     # longest first
-    order = {"H": 0, "bounds": 1, "tiles": 2, "chunks": 3}
+    order = {"H": 0, "bounds": 1, "interior": 1, "tiles": 2, "chunks": 3}
     alljobs = sorted(hjobs + jobs, key=lambda j: order[j[0]])
     core.run_parallel(run, __name__, "job_any", alljobs, timeout_s=1500 if tier == "quick" else 20000)
     if want("bbox-H"):
@@ -1092,4 +1093,141 @@ def job_bounds(run, sizes):
 
 
 def job_any(run, kind, *args):
-    {"tiles": job_tiles, "H": job_H, "chunks": job_chunks, "bounds": job_bounds}[kind](run, *args)
+    {"tiles": job_tiles, "H": job_H, "chunks": job_chunks, "bounds": job_bounds, "interior": job_interior}[kind](run, *args)
+
+
+# ------------------------------------------------------------------ _image_bounds: latitude extremum INSIDE the image
+
+class PoleLikeWCS:
+    """lat = lat0 - k ((x - xc)^2 + (y - yc)^2), lon affine in x: a latitude maximum at the symbolic interior point
+    (xc, yc), as for an image containing a celestial pole.  Differences of two samples are linear in (xc, yc)."""
+
+    def __init__(self, xc, yc, k, lat0, lon_a, lon_c):
+        self.p = (xc, yc, k, lat0, lon_a, lon_c)
+        self.q = xc * xc + yc * yc if not symx.is_sym(xc) else None
+
+    def wcs_pix2world(self, pix, origin):
+        if origin != 1:
+            raise HarnessError("_image_bounds calls wcs_pix2world with origin %r" % (origin,))
+        xc, yc, k, lat0, lon_a, lon_c = self.p
+        pix = np.asarray(pix, dtype=object)
+        out = np.empty((pix.shape[0], 2), dtype=object)
+        for i in range(pix.shape[0]):
+            x, y = Fraction(float(pix[i, 0])).limit_denominator(10 ** 7), Fraction(float(pix[i, 1])).limit_denominator(10 ** 7)
+            out[i, 0] = lon_a * x + lon_c
+            # lat0 - k (x^2 + y^2) + 2 k (x xc + y yc)  [- k (xc^2 + yc^2): the same constant for every sample, folded into lat0]
+            out[i, 1] = lat0 - k * (x * x + y * y) + (2 * k * x) * xc + (2 * k * y) * yc
+        return out
+
+
+def harness_interior(naxis1, naxis2, axis):
+    """-> per path: is the refined latitude maximum taken within one pixel (per axis) of the true interior extremum?
+    The extremum's coordinate along `axis` (1 = columns, 2 = rows) is symbolic within one cell of the coarse 32x32
+    grid in the middle of the image; the other coordinate is a fixed off-grid value (keeps the path count small)."""
+    def h(ctx):
+        step1, step2 = Fraction(naxis1, 31), Fraction(naxis2, 31)
+        if axis == 1:
+            xc = SymReal(z3.Real("xc"))
+            yc = Fraction(1, 2) + 15 * step2 + step2 * Fraction(3, 10)
+            ctx.assume(z3.And(xc.t >= _rv(Fraction(1, 2) + 15 * step1), xc.t <= _rv(Fraction(1, 2) + 16 * step1)))
+        else:
+            yc = SymReal(z3.Real("yc"))
+            xc = Fraction(1, 2) + 15 * step1 + step1 * Fraction(3, 10)
+            ctx.assume(z3.And(yc.t >= _rv(Fraction(1, 2) + 15 * step2), yc.t <= _rv(Fraction(1, 2) + 16 * step2)))
+        k = Fraction(1, 10 ** 6 * max(naxis1, naxis2))
+        lat0 = SymReal(z3.Real("lat_peak"))
+        ctx.assume(z3.And(lat0.t >= 10, lat0.t <= 80))
+        seen = []
+
+        class Spy(PoleLikeWCS):
+            def wcs_pix2world(self, pix, origin):
+                out = PoleLikeWCS.wcs_pix2world(self, pix, origin)
+                seen.append((np.asarray(pix, dtype=float).copy(), out))
+                return out
+
+        smp = tsm.WcsSampler(np.zeros((naxis2, naxis1), dtype=np.float32), Spy(xc, yc, k, lat0, Fraction(1, 1000), Fraction(100)))
+        saved = tsm.np
+        tsm.np = _NPObj()
+        try:
+            lon_min, lon_max, lat_min, lat_max = smp._image_bounds()
+        finally:
+            tsm.np = saved
+        # lat_max is one of the sampled values: find the sample it is (path conditions decided which one)
+        D2R = Fraction(math.pi / 180)
+        where = None
+        for pix, out in seen:
+            for i in range(pix.shape[0]):
+                if symx.is_sym(out[i, 1]) and z3.eq(z3.simplify(R(out[i, 1]) * _rv(D2R)), z3.simplify(R(lat_max))):
+                    where = (Fraction(float(pix[i, 0])).limit_denominator(10 ** 7), Fraction(float(pix[i, 1])).limit_denominator(10 ** 7))
+        if where is None:
+            raise HarnessError("_image_bounds returns a maximum latitude that is none of the sampled values")
+        xs, ys = where
+        claim = z3.And(R(xc) - _rv(xs) <= 1, _rv(xs) - R(xc) <= 1, R(yc) - _rv(ys) <= 1, _rv(ys) - R(yc) <= 1)
+        r, m = ctx.prove(claim)
+        cex = None
+        if r == "sat":
+            cex = dict(xc=_fval(m, R(xc)), yc=_fval(m, R(yc)), sample=(float(xs), float(ys)))
+        return r, cex
+    return h
+
+
+def interior_replay(naxis1, naxis2, xc, yc):
+    """Real _image_bounds with a real astropy TAN image whose pole sits at pixel (xc, yc): how far (in pixels of
+    latitude, i.e. arc / pixel scale) does the returned maximum latitude fall short of the pole?"""
+    from astropy.wcs import WCS
+    scale = 0.01
+    w = WCS(naxis=2)
+    w.wcs.ctype = ["RA---TAN", "DEC--TAN"]
+    w.wcs.crval = [0.0, 90.0]
+    w.wcs.crpix = [float(xc), float(yc)]
+    w.wcs.cdelt = [-scale, scale]
+    w.wcs.set()
+    smp = tsm.WcsSampler(np.zeros((naxis2, naxis1), dtype=np.float32), w)
+    lon_min, lon_max, lat_min, lat_max = [float(v) for v in smp._image_bounds()]
+    short_deg = 90.0 - math.degrees(lat_max)
+    return short_deg / scale, lat_max
+
+
+INTERIOR_SIZES = {"quick": [(64, 64, 1), (64, 64, 2), (8, 640, 2), (640, 8, 1)],
+                  "thorough": [(n1, n2, ax) for (n1, n2) in [(64, 64), (8, 640), (640, 8), (100, 37), (12, 2000), (2000, 12), (33, 500), (257, 129)] for ax in (1, 2)]}
+
+
+def job_interior(run, sizes):
+    t0 = time.time()
+    stats = {}
+    npaths = 0
+    bad = []
+    for (n1, n2, axis) in sizes:
+        for ctx, out in symx.explore(harness_interior(n1, n2, axis), stats=stats, max_paths=3000, timeout_ms=120000, seed=run.seed):
+            npaths += 1
+            if not isinstance(out, tuple):
+                run.ob("image-bounds-interior[%dx%d].path" % (n1, n2), "inconclusive", "E2:symx", "exploration ended with %r" % (out,))
+                continue
+            r, cex = out
+            if r == "sat":
+                bad.append(((n1, n2), cex))
+                break
+            if r != "unsat":
+                run.ob("image-bounds-interior[%dx%d].path" % (n1, n2), "inconclusive", "E2:symx", "solver %s" % r)
+    run.queries += stats.get("queries", 0)
+    run.solver_s += stats.get("solver_s", 0.0)
+    reported = False
+    for (n1, n2), cex in bad:
+        nm = "image-bounds-interior[%dx%d]" % (n1, n2)
+        short_px, lat_max = interior_replay(n1, n2, cex["xc"], cex["yc"])
+        if short_px > 1.5:
+            what = ("%dx%d TAN image with the celestial pole at pixel (%.2f, %.2f): the maximum latitude returned by WcsSampler._image_bounds() is %.2f pixels short of the pole (refined samples around the coarse extremum do not come "
+                    "within a pixel of it; model: nearest refined sample %r), so tiles around the pole that hold image data are filtered out" % (n1, n2, cex["xc"], cex["yc"], short_px, cex["sample"]))
+            if reported:
+                run.ob(nm, "violated", "E2:symx", what)
+                continue
+            reported = True
+            run.violation(nm, "samplers.py:WcsSampler._image_bounds:interior-extremum-undersampled", what,
+                          "import sys\nsys.path.insert(0, %r)\nimport props.C07 as P\npx, lat = P.interior_replay(%d, %d, %r, %r)\nprint('short of the pole by', px, 'pixels; lat_max', lat)\nsys.exit(1 if px > 1.5 else 0)\n" % (
+                              core.VERIF, n1, n2, cex["xc"], cex["yc"]), "E2:symx")
+        else:
+            run.ob(nm, "inconclusive", "E2:symx", "the quadratic model places the refined maximum %r more than a pixel from the extremum (%.2f, %.2f) but a real TAN image with the pole there is only %.2f pixels short: not reported" % (
+                cex["sample"], cex["xc"], cex["yc"], short_px))
+    if not bad:
+        run.ob("image-bounds-interior%r" % (sizes,), "unsat", "E2:symx", "latitude maximum at a symbolic interior pixel (xc, yc) (quadratic, pole-like): the refined sample taken as the maximum lies within one pixel per axis of it; "
+               "%d paths, %.0fs" % (npaths, time.time() - t0))
